@@ -126,9 +126,53 @@ fn bump_f(x: &mut F) {
     *x += F::ONE;
 }
 
+pub fn clone_case(base: &Case) -> Case {
+    Case {
+        instance: base.instance.clone(),
+        openings: FriOpenings { batches: base.openings.batches.iter().map(|b| FriOpeningBatch { values: b.values.clone() }).collect() },
+        challenges: FriChallenges { fri_alpha: base.challenges.fri_alpha, fri_betas: base.challenges.fri_betas.clone(), fri_pow_response: base.challenges.fri_pow_response, fri_query_indices: base.challenges.fri_query_indices.clone() },
+        caps: base.caps.clone(),
+        proof: base.proof.clone(),
+        params: base.params.clone(),
+    }
+}
+
 /// The deviation catalogue: every class of single edit, challenges held fixed.
 pub fn deviations(e: &mut Emitter, r: &mut Rng, base: &Case, per_class: usize) {
     let nq = base.proof.query_round_proofs.len();
+    // targeted: deviations placed in a round that repeats an earlier index or revisits a coset
+    {
+        let idx = &base.challenges.fri_query_indices;
+        let arities = &base.params.reduction_arity_bits;
+        for q in 1..idx.len().min(nq) {
+            if idx[..q].contains(&idx[q]) {
+                let mut c = clone_case(base);
+                let ep = &mut c.proof.query_round_proofs[q].initial_trees_proof.evals_proofs;
+                let o = r.below(ep.len() as u64) as usize;
+                let k = r.below(ep[o].0.len() as u64) as usize;
+                ep[o].0[k] += F::ONE;
+                let req = c.request();
+                e.case("edit-in-round-repeating-an-index", req, || c.verify());
+            }
+            let mut shift = 0;
+            for (j, a) in arities.iter().enumerate() {
+                shift += a;
+                if idx[..q].iter().any(|&i| i >> shift == idx[q] >> shift) {
+                    let mut c = clone_case(base);
+                    let st = &mut c.proof.query_round_proofs[q].steps[j];
+                    if r.coin() && !st.merkle_proof.siblings.is_empty() {
+                        let k = r.below(st.merkle_proof.siblings.len() as u64) as usize;
+                        st.merkle_proof.siblings[k].elements[0] += F::ONE;
+                    } else {
+                        let k = r.below(st.evals.len() as u64) as usize;
+                        st.evals[k] += <F as Extendable<D>>::Extension::ONE;
+                    }
+                    let req = c.request();
+                    e.case("edit-in-round-revisiting-a-coset", req, || c.verify());
+                }
+            }
+        }
+    }
     macro_rules! dev {
         ($class:expr, $c:ident, $body:block) => {{
             let mut $c = Case {
@@ -304,6 +348,22 @@ pub fn emit(e: &mut Emitter, seed: u64, thorough: bool) {
                 e.case("honest", case.request(), || case.verify());
                 deviations(e, &mut r, &case, if thorough { 3 } else { 2 });
             }
+        }
+    }
+    // tiny LDE domains with more queries than points: repeated indices are certain
+    for _ in 0..(if thorough { 10 } else { 3 }) {
+        let degree_bits = r.range(1, 3) as usize;
+        let rate_bits = r.range(1, 2) as usize;
+        let config = FriConfig {
+            rate_bits,
+            cap_height: r.below(2) as usize,
+            proof_of_work_bits: 0,
+            reduction_strategy: FriReductionStrategy::ConstantArityBits(1, 0),
+            num_query_rounds: r.range(10, 24) as usize,
+        };
+        if let Some(case) = honest(&mut r, degree_bits, config, false, 2, 3, 2) {
+            e.case("honest tiny-domain", case.request(), || case.verify());
+            deviations(e, &mut r, &case, 1);
         }
     }
     // arity schedules of ConstantArityBits for all small parameters
